@@ -9,6 +9,7 @@ Parts
   ret  : a single primitive return value is sent as its exact text / bytes; a declared
          out-header class is sent as HTTP headers.
 """
+import datetime as dtm
 import itertools
 
 from hypothesis import strategies as st
@@ -92,7 +93,31 @@ def cases(tier):
         names = _names(m, U)
         delims = [d for d in DELIMS if not any(d in n for n in names)]
         strict = draw(st.booleans())
-        return {"U": U, "m": m, "args": args, "rets": rets,
+        oh = None
+        if draw(st.integers(0, 2)) == 0:
+            # a declared out-header class: its members are sent as HTTP response headers
+            occ1 = {"min": 0, "max": 1, "nillable": True}
+            pool = [["Xtext", {"k": "prim", "t": "Unicode", "f": {}, "occ": occ1}],
+                    ["Xcount", {"k": "prim", "t": "Integer", "f": {}, "occ": occ1}],
+                    ["Xflag", {"k": "prim", "t": "Boolean", "f": {}, "occ": occ1}],
+                    ["Expires", {"k": "prim", "t": "DateTime", "f": {}, "occ": occ1}]]
+            fields = draw(st.lists(st.sampled_from(pool), min_size=1, max_size=4, unique_by=lambda x: x[0]))
+            U["classes"].append({"name": "RespHdr", "ns": U["tns"], "extends": None, "fields": fields})
+            m["out_header"] = ["RespHdr"]
+            hv = {}
+            for fn, ft in fields:
+                if fn == "Xtext":
+                    hv[fn] = draw(st.text("abcXYZ019 -_.;=/,", min_size=1, max_size=20)
+                                  .map(str.strip).filter(bool))
+                elif fn == "Xcount":
+                    hv[fn] = jv.enc(draw(st.integers(-10 ** 20, 10 ** 20)))
+                elif fn == "Xflag":
+                    hv[fn] = draw(st.booleans())
+                else:
+                    hv[fn] = jv.enc(dtm.datetime(2000, 1, 1, tzinfo=dtm.timezone.utc) +
+                                    dtm.timedelta(seconds=draw(st.integers(0, 6 * 10 ** 9))))
+            oh = {"$obj": "RespHdr", "f": hv}
+        return {"U": U, "m": m, "args": args, "rets": rets, "oh": oh,
                 "delim": draw(st.sampled_from(delims)),
                 "strict": strict,
                 "sparse": (not strict) and draw(st.booleans()),
@@ -167,7 +192,15 @@ def run_case(case, rec):
                                      strict_arrays=case["strict"]),
                              HttpRpc())
         rets = [B.to_native(t, j) for t, j in zip(m["ret"], case["rets"])]
-        R.script[m["name"]] = (lambda ctx, a: rets[0]) if rets else (lambda ctx, a: None)
+        ohv = None
+        if case.get("oh"):
+            ohv = B.to_native({"k": "ref", "n": "RespHdr"}, case["oh"])
+
+        def script(ctx, a):
+            if ohv is not None:
+                ctx.out_header = ohv
+            return rets[0] if rets else None
+        R.script[m["name"]] = script
         wsgi = WsgiApplication(app)
     except Exception as e:
         et, where = F.exc_origin(e)
@@ -205,6 +238,28 @@ def run_case(case, rec):
                     fails.append(("C03|request|%s" % _diff_class(at, r),
                                   "%s: argument differs: %s\nquery: %s" % (cfg, r, qs[:800])))
                     break
+        # the declared out-header: one HTTP response header per member
+        if case.get("oh"):
+            got_h = {}
+            for hk, hval in (res.headers or []):
+                got_h.setdefault(hk, []).append(hval)
+            for fn, j in sorted(case["oh"]["f"].items()):
+                v = jv.dec(j)
+                if fn == "Expires":
+                    import email.utils
+                    want = email.utils.format_datetime(v.astimezone(dtm.timezone.utc), usegmt=True)
+                elif fn == "Xflag":
+                    want = "true" if v else "false"
+                else:
+                    want = str(v)
+                if got_h.get(fn) != [want]:
+                    fails.append(("C03|out-header|%s" % fn,
+                                  "%s: response header %s is %r, the function set %r (expected %r)"
+                                  % (cfg, fn, got_h.get(fn), v, want)))
+                    break
+            if not all(isinstance(k, str) and isinstance(x, str) for k, xs in got_h.items() for x in xs):
+                fails.append(("C03|out-header|not-str", "%s: header names/values must be str: %r"
+                              % (cfg, res.headers)))
         # single primitive return: exact text / bytes
         if m["ret"]:
             rt, rv = m["ret"][0], case["rets"][0]
@@ -226,7 +281,8 @@ def run_case(case, rec):
     if permuted and (many >= 2 or case["sparse"] or nested):
         nt = {"labs": sorted(labs), "cfg": cfg, "many": min(many, 11)}
     rec.case(case, failures=fails, nontrivial=nt,
-             classes=["cfg:" + cfg, "permuted:%s" % permuted, "objarray_len:%d" % min(many, 11)]
+             classes=["cfg:" + cfg, "permuted:%s" % permuted, "objarray_len:%d" % min(many, 11),
+                      "out_header:%s" % bool(case.get("oh"))]
              + ["val:" + x for x in labs])
     return fails
 
